@@ -24,9 +24,12 @@ Proof.
   destruct (isspace c) eqn:E; [exact IH|]. right. now exists c, r.
 Qed.
 
+Lemma strip_blanks_eq b : strip_blanks b = rev (drop_ws (rev (drop_ws b))).
+Proof. unfold strip_blanks, frev. now rewrite <- !rev_alt. Qed.
+
 Lemma strip_blanks_fixed b : drop_ws (strip_blanks b) = strip_blanks b /\ drop_ws (rev (strip_blanks b)) = rev (strip_blanks b).
 Proof.
-  unfold strip_blanks. split.
+  rewrite strip_blanks_eq. split.
   - destruct (drop_ws_head b) as [H|(x & r & H & Hx)]; rewrite H; [reflexivity|].
     cbn [rev]. rewrite (drop_ws_snoc (rev r) x Hx), rev_app_distr. cbn [rev app drop_ws]. now rewrite Hx.
   - rewrite rev_involutive. apply drop_ws_idem.
@@ -35,7 +38,7 @@ Qed.
 Lemma strip_blanks_idem b : strip_blanks (strip_blanks b) = strip_blanks b.
 Proof.
   destruct (strip_blanks_fixed b) as [H1 H2].
-  unfold strip_blanks at 1. rewrite H1, H2. apply rev_involutive.
+  rewrite (strip_blanks_eq (strip_blanks b)). rewrite H1, H2. apply rev_involutive.
 Qed.
 
 Lemma only_ws_drop b : only_ws b = false -> exists x r, drop_ws b = x :: r /\ isspace x = false.
@@ -47,7 +50,7 @@ Qed.
 Lemma strip_blanks_not_blank b : only_ws b = false -> only_ws (strip_blanks b) = false.
 Proof.
   intros H. destruct (only_ws_drop b H) as (x & r & Hd & Hx).
-  unfold strip_blanks. rewrite Hd. cbn [rev]. rewrite (drop_ws_snoc (rev r) x Hx), rev_app_distr. cbn [rev app].
+  rewrite strip_blanks_eq. rewrite Hd. cbn [rev]. rewrite (drop_ws_snoc (rev r) x Hx), rev_app_distr. cbn [rev app].
   unfold only_ws. cbn [forallb]. now rewrite Hx.
 Qed.
 
@@ -101,12 +104,12 @@ Qed.
 (* outside CDATA and binary-flagged tags, with trimming on: a blank-only text writes nothing, any other text is encoded
    exactly as its trimmed form would be *)
 Theorem enc_text_blank e st p c :
-  is_binary_tag st = false -> in_cdata st = false -> e_ignore_empty e = true -> only_ws c = true ->
+  is_binary_tag st p = false -> in_cdata st = false -> e_ignore_empty e = true -> only_ws c = true ->
   enc_text e st p c = EOk ([], st).
 Proof. intros Hb Hc Hi Hw. unfold enc_text. now rewrite Hb, Hc, Hi, Hw. Qed.
 
 Theorem enc_text_normalised e st p c :
-  is_binary_tag st = false -> in_cdata st = false -> e_remove_blanks e = true -> only_ws c = false ->
+  is_binary_tag st p = false -> in_cdata st = false -> e_remove_blanks e = true -> only_ws c = false ->
   enc_text e st p c = enc_text e st p (strip_blanks c).
 Proof.
   intros Hb Hc Hr Hw. unfold enc_text. rewrite Hb, Hc, Hr, Hw, (strip_blanks_not_blank c Hw).
@@ -115,6 +118,6 @@ Qed.
 
 (* with keep-ws the encoder does not touch the text at all *)
 Theorem enc_text_keep e st p c :
-  is_binary_tag st = false -> in_cdata st = false -> e_ignore_empty e = false -> e_remove_blanks e = false ->
+  is_binary_tag st p = false -> in_cdata st = false -> e_ignore_empty e = false -> e_remove_blanks e = false ->
   enc_text e st p c = enc_value e st false None [] p (cstr c).
 Proof. intros Hb Hc Hi Hr. unfold enc_text. rewrite Hb, Hc, Hi, Hr. reflexivity. Qed.
